@@ -181,15 +181,39 @@ pub fn zigzag_sweep32(tr: &mut Tr) -> (u64, u64) {
 
 // ------------------------------------------------------------------ C18
 
+/// a byte sink that accepts at most `chunk' bytes per call and `cap' bytes in all (then Ok(0), as a full slice does)
+struct ChunkSink {
+    out: Vec<u8>,
+    chunk: usize,
+    cap: usize,
+}
+impl std::io::Write for ChunkSink {
+    fn write(&mut self, buf: &[u8]) -> std::io::Result<usize> {
+        let n = buf.len().min(self.chunk).min(self.cap - self.out.len());
+        self.out.extend_from_slice(&buf[..n]);
+        Ok(n)
+    }
+    fn flush(&mut self) -> std::io::Result<()> {
+        Ok(())
+    }
+}
+
 fn vb_write_ev(tr: &mut Tr, variant: &str, v: u64) {
-    let mut buf: Vec<u8> = vec![];
+    vb_write_sink(tr, variant, v, usize::MAX, usize::MAX);
+}
+
+fn vb_write_sink(tr: &mut Tr, variant: &str, v: u64, chunk: usize, cap: usize) {
+    let mut sink = ChunkSink { out: vec![], chunk, cap };
     let r = match variant {
-        "be" => vbyte_write_be(v, &mut buf),
-        "le" => vbyte_write_le(v, &mut buf),
-        "generic-be" => vbyte_write::<BE, _>(v, &mut buf),
-        _ => vbyte_write::<LE, _>(v, &mut buf),
+        "be" => vbyte_write_be(v, &mut sink),
+        "le" => vbyte_write_le(v, &mut sink),
+        "generic-be" => vbyte_write::<BE, _>(v, &mut sink),
+        _ => vbyte_write::<LE, _>(v, &mut sink),
     };
-    tr.emit(Ev::new("vb_write").s("variant", variant).u64("v", v).s("res", if r.is_ok() { "ok" } else { "err" }).i("ret", r.map(|x| x as i64).unwrap_or(-1)).bytes("bytes", &buf));
+    let e = Ev::new("vb_write").s("variant", variant).u64("v", v).s("res", if r.is_ok() { "ok" } else { "err" }).i("ret", r.map(|x| x as i64).unwrap_or(-1)).bytes("bytes", &sink.out);
+    let e = if cap != usize::MAX { e.i("cap", cap as i64) } else { e };
+    let e = if chunk != usize::MAX { e.i("chunk", chunk as i64) } else { e };
+    tr.emit(e);
 }
 
 fn vb_read_ev(tr: &mut Tr, variant: &str, bytes: &[u8]) {
@@ -232,6 +256,16 @@ pub fn vbyteio(tr: &mut Tr, seed: u64, dense_log: u32, maxlen: usize, sample3: u
         for variant in ["be", "le", "generic-be", "generic-le"] {
             vb_write_ev(tr, variant, v);
             tests += 1;
+        }
+        // sinks that take a few bytes per call, and sinks that run out of room (a slice)
+        if v < 300 || v > (1 << 21) || v % 509 == 0 {
+            let len = byte_len_vbyte(v);
+            for variant in ["be", "le", "generic-be", "generic-le"] {
+                vb_write_sink(tr, variant, v, 1 + (v as usize + len) % 3, usize::MAX);
+                let cap = (v as usize / 3 + len + 1) % (len + 2);
+                vb_write_sink(tr, variant, v, usize::MAX, cap);
+                tests += 2;
+            }
         }
         // decode what the library encoded, followed by junk
         for variant in ["be", "le"] {
@@ -385,6 +419,21 @@ fn len_steps(tr: &mut Tr, c: &CodeSpec, opt: u8, upto: u64) {
     tr.emit(Ev::new("len_steps").code(c, opt).b("monotone", mono).u64("upto", covered).raw("steps", &js));
 }
 
+/// an IEEE double as (odd mantissa, exponent): p = m * 2^e exactly
+fn f64_exact(p: f64) -> (u64, i64) {
+    if p == 0.0 {
+        return (0, 0);
+    }
+    let bits = p.to_bits();
+    let ef = ((bits >> 52) & 0x7ff) as i64;
+    let frac = bits & ((1u64 << 52) - 1);
+    let (mut m, mut e) = if ef == 0 { (frac, -1074) } else { (frac | (1u64 << 52), ef - 1075) };
+    let tz = m.trailing_zeros();
+    m >>= tz;
+    e += tz as i64;
+    (m, e)
+}
+
 /// returns true iff the iterator ended (returned None)
 fn cp_iter<F: Fn(u64) -> usize>(tr: &mut Tr, id: i64, f: F, max_yields: usize, max_evals: u64) -> bool {
     // watchdog: a next() that evaluates f more than max_evals times is reported as a hang
@@ -451,10 +500,50 @@ pub fn changepoints(tr: &mut Tr, seed: u64, full: bool, upto_log: u32) -> (u64, 
         let id2 = tr.new_id();
         tr.emit(Ev::new("cp_new").i("o", id2).s("kind", "code").code(&c, 0));
         match r {
-            Ok((cps, _probs)) => {
-                for (x, l) in cps {
-                    tr.emit(Ev::new("cp_next").i("o", id2).s("res", "some").u64("x", x).i("fx", l as i64).i("evals", 0));
+            Ok((cps, probs)) => {
+                for (x, l) in &cps {
+                    tr.emit(Ev::new("cp_next").i("o", id2).s("res", "some").u64("x", *x).i("fx", *l as i64).i("evals", 0));
                 }
+                // witness of completeness: the change point that the 128-bit cut dropped (if any)
+                let cc3 = c;
+                let ncp = cps.len();
+                let nxt = std::panic::catch_unwind(std::panic::AssertUnwindSafe(|| FindChangePoints::new(move |x| lib_len(&cc3, 0, x)).nth(ncp)));
+                let mut pj = String::from("[");
+                for (i, p) in probs.iter().enumerate() {
+                    if i > 0 {
+                        pj.push(',');
+                    }
+                    let (m, e) = f64_exact(*p);
+                    let b = m.to_be_bytes();
+                    pj.push_str(&format!("[[{},{},{},{},{},{},{},{}],{}]", b[0], b[1], b[2], b[3], b[4], b[5], b[6], b[7], e));
+                }
+                pj.push(']');
+                // samples
+                let cc4 = c;
+                let nsamples = 48usize;
+                let mut srng = SmallRng::seed_from_u64(seed ^ (ncp as u64) << 8 ^ c.k as u64 ^ c.b);
+                let sm = std::panic::catch_unwind(std::panic::AssertUnwindSafe(|| {
+                    sample_implied_distribution(move |x| lib_len(&cc4, 0, x), &mut srng).take(nsamples).collect::<Vec<u64>>()
+                }));
+                let mut sj = String::from("[");
+                if let Ok(v) = &sm {
+                    for (i, x) in v.iter().enumerate() {
+                        if i > 0 {
+                            sj.push(',');
+                        }
+                        let b = x.to_be_bytes();
+                        sj.push_str(&format!("[{},{},{},{},{},{},{},{}]", b[0], b[1], b[2], b[3], b[4], b[5], b[6], b[7]));
+                    }
+                }
+                sj.push(']');
+                let ev = Ev::new("implied").i("o", id2).raw("probs", &pj).s("sres", if sm.is_ok() { "ok" } else { "panic" }).i("nsamples", nsamples as i64).raw("samples", &sj);
+                let ev = match nxt {
+                    Ok(Some((x, _))) => ev.s("nxt", "some").u64("nx", x),
+                    Ok(None) => ev.s("nxt", "none").u64("nx", 0),
+                    Err(_) => ev.s("nxt", "panic").u64("nx", 0),
+                };
+                tr.emit(ev);
+                tests += 1;
             }
             Err(_) => {
                 tr.emit(Ev::new("cp_next").i("o", id2).s("res", "panic").u64("x", 0).i("fx", 0).i("evals", 0));
